@@ -28,6 +28,26 @@ def explore(run, driver, budget):
     done = ["reporting"] * 8 + ["blocklisted", "zero-baseline", "strange-low", "strange-high"]
     corpus = [(lambda rng, pi=pi, d=d: A.gen_case(rng, pi_method=pi, roles=done, all_reported=True, district=d))
               for pi in ("gaussian", "nonparametric", "bootstrap") for d in (False, True)]
+    def open_state(_rng, k):
+        """end of the night in a run over several states: all but one state are completely reported, the remaining one has partial
+        counts only (no reporting unit of its own yet) - its bounds must still be floored at its counted votes (own generator)"""
+        import random
+
+        own = random.Random(f"c03-open-state-{getattr(run, 'seed', 0)}-{k}")
+        case = A.gen_case(own, pi_method="gaussian", roles=["reporting"], n_states=3, district=False, unexpected=(k == 1))
+        e = case["election"]
+        last = sorted(e.states)[k % 3]
+        for i in e.cur.index:
+            if e.cur.loc[i, "postal_code"] == last and e.roles.get(e.cur.loc[i, "geographic_unit_fips"]) == "reporting":
+                e.cur.loc[i, "percent_expected_vote"] = min(35.0, float(e.threshold) / 2)
+                for c in ("results_dem", "results_gop", "results_turnout"):
+                    e.cur.loc[i, c] = int(e.cur.loc[i, c] * 0.35)
+                e.roles[e.cur.loc[i, "geographic_unit_fips"]] = "partial"
+        if "postal_code" not in case["aggregates"]:
+            case["aggregates"] = ["postal_code"] + list(case["aggregates"])
+        return case
+
+    corpus += [(lambda rng, k=k: open_state(rng, k)) for k in (0, 1)]
     K.explore(run, driver, budget, PROP, RULE, pi_cycle=("nonparametric", "gaussian", "nonparametric", "gaussian", "bootstrap"),
               corpus=corpus)
     # gaussian aggregate floor on structures with fallback groups sorted before own-model groups and high partial counts
